@@ -77,6 +77,10 @@ class LinearMean(MeanFunction):
         self.dx = x - self.x_mean[None, :]
         self.n_data = x.shape[0]
         self.n_params = 1 + x.shape[1]
+        # (bounds held for another number of dimensions - estimated when this object
+        # served other data - cannot apply to these)
+        if self.bounds is not None and len(self.bounds) != self.n_params:
+            self.bounds = None
         self.hyperpar_labels = ["LinearMean background"]
         self.hyperpar_labels.extend(
             [f"LinearMean gradient {i}" for i in range(x.shape[1])]
@@ -116,6 +120,10 @@ class QuadraticMean(MeanFunction):
         self.dx_sqr = self.dx**2
         self.n_data = x.shape[0]
         self.n_params = 1 + 2 * n
+        # (bounds held for another number of dimensions - estimated when this object
+        # served other data - cannot apply to these)
+        if self.bounds is not None and len(self.bounds) != self.n_params:
+            self.bounds = None
         self.hyperpar_labels = ["mean_background"]
         self.hyperpar_labels.extend([f"mean_linear_coeff_{i}" for i in range(n)])
         self.hyperpar_labels.extend([f"mean_quadratic_coeff_{i}" for i in range(n)])
